@@ -22,7 +22,14 @@ CFG = dict(
          "crashed again. Directed scenarios on the real store = the Coq witnesses: A (record without values, fixed ccd70f3), "
          "B (stale tree leaf after two crashes, fixed b260503), C (PreallocFiles partial commit entry, known), D (tree logs "
          "cut behind an un-synced commit-log rewind, fixed 0b488aa): a recurrence of a fixed one is a VIOLATION with crash "
-         "point and image. Plus 1+n/5 ROTATION workloads (FileSize 256..1024: tx records straddle chunk boundaries, every log "
+         "point and image; E = index recovery (transactions whose entries are all non-indexable — the indexer only moves "
+         "the index timestamp — between indexable ones, flush threshold 2 with a far sync threshold plus explicit synced "
+         "and non-synced flushes, images that drop the un-fsynced index logs but keep a renamed TIMESTAMP file and the "
+         "converse; after recovery + WaitForIndexingUpto(last committed) Get of EVERY key of the recovered committed "
+         "history must return its latest committed tx and value). Random workloads with header version 1 also mix in "
+         "non-indexable transactions (30%) and non-synced threshold flushes. The index TIMESTAMP files (written by temp "
+         "file + fsync + rename, not through an appendable) are observed next to the logs and form their own image class "
+         "'meta' (only:meta / except:meta / except:index / rand). Plus 1+n/5 ROTATION workloads (FileSize 256..1024: tx records straddle chunk boundaries, every log "
          "rotates several times; long schedules; a crash point after EVERY acknowledgement) whose store lives on a disk "
          "file system and whose durability is OBSERVED per physical chunk file after every call (cachestat(2): a written "
          "file without dirty/writeback pages has been fsynced; otherwise its writes stay pending whatever the API was "
@@ -40,6 +47,10 @@ CFG = dict(
         "removal of chunk files is durable when SetOffset returns (multiapp fsyncs the directory); no reordering beyond "
         "that; in every reachable model state a truncation is the first pending operation of its file; a created chunk "
         "file exists with its header (singleapp.Open fsyncs file and directory)",
+        "rename semantics (index TIMESTAMP files: temp file fsynced, renamed, directory NOT fsynced): the replacement is "
+        "atomic (never torn) and after a crash the name shows the old OR the new content, whatever else reached the disk "
+        "(both explored: the new content may be durable at once, e.g. by a journal commit, or never until the directory "
+        "is fsynced); a replacement is observed at the next traced storage call of any log, not at the rename itself",
         "harness, rotation workloads: durability of each physical chunk file is observed through cachestat(2) (kernel >= 6.5, "
         "disk file system; falls back to the derived level and says so in the input distribution otherwise); a page "
         "cleaned by background write-back within the sub-second run would be taken as fsynced; a TRUNCATION leaves no dirty "
